@@ -94,7 +94,7 @@ package gem
 // ---- stored text (C18)
 
 //@ func (*Version).String
-//@   ensures text: result == arg0.original   [C18]
+//@   ensures text: result == arg0.original   [C05 C18]
 
 //@ func (*VersionRange).String
 //@   ensures text: result == arg0.original   [C18]
@@ -106,8 +106,15 @@ package gem
 //@ lemma c20-range-convex [C20] uses c20-convex: forall vr *VersionRange, a, b, d *Version, ecosystem *Ecosystem :: vr != nil && a != nil && b != nil && d != nil && wfRange(vr) && ecosystem != nil && (forall i int :: 0 <= i && i < len(vr.constraints) ==> (vr.constraints[i].operator == "=" || vr.constraints[i].operator == "!=" || vr.constraints[i].operator == "<" || vr.constraints[i].operator == "<=" || vr.constraints[i].operator == ">" || vr.constraints[i].operator == ">=") && vr.constraints[i].operator != "!=") && a.Compare(b) <= 0 && b.Compare(d) <= 0 && (forall i int :: 0 <= i && i < len(vr.constraints) ==> satisfiesConstraint(a, vr.constraints[i], theEcosystem())) && (forall i int :: 0 <= i && i < len(vr.constraints) ==> satisfiesConstraint(d, vr.constraints[i], theEcosystem())) ==> (forall i int :: 0 <= i && i < len(vr.constraints) ==> satisfiesConstraint(b, vr.constraints[i], theEcosystem()))
 
 // ---- pessimistic operator (C05): never below the base (the pinned-prefix part is covered by the bounded layer)
+// ... and the leading numeric segments are pinned: all written segments but the last (one for "~> X"; all of them when the
+// base carries a pre-release part), a missing segment reading as 0
+//@ spec gemMain(s string) string = strings.Index(s, "-") != -1 ? s[:strings.Index(s, "-")] : s
+//@ spec gemPinned(c *Version) int = len(c.splitNumericAndPrerelease().1) > 0 ? len(strings.Split(gemMain(c.original), ".")) : (len(strings.Split(gemMain(c.original), ".")) == 1 ? 1 : len(strings.Split(gemMain(c.original), ".")) - 1)
+//@ spec gemNum(s []segment, i int) int = i < len(s) ? s[i].numValue : 0
 //@ func satisfiesPessimistic
 //@   ensures below-base: version.Compare(constraint) < 0 ==> !result   [C05]
+//@   ensures pinned-yes: result ==> (version.Compare(constraint) >= 0 && (forall i int :: 0 <= i && i < gemPinned(constraint) ==> gemNum(version.splitNumericAndPrerelease().0, i) == gemNum(constraint.splitNumericAndPrerelease().0, i)))   [C05]
+//@   ensures pinned-no: (version.Compare(constraint) >= 0 && (forall i int :: 0 <= i && i < gemPinned(constraint) ==> gemNum(version.splitNumericAndPrerelease().0, i) == gemNum(constraint.splitNumericAndPrerelease().0, i))) ==> result   [C05]
 
 // ---- segments (C13): a part that reads as a number is a number segment, anything else a (lower-cased) string segment;
 // trailing zero segments are dropped but the first segment is kept
